@@ -151,6 +151,25 @@ def install():
     if orig_format is not None:
         core._PATCH_REGISTRATIONS[str.format] = _fmt
 
+    # --- format(obj) / f"{obj}" for objects with a __format__ written in Python ------------
+    # CrossHair's model of format() deep-realises its argument before calling __format__ (needed for C-level formatters);
+    # for a pure-Python __format__ (the harness recorders and receiver stubs) that realises the symbolic text the object
+    # holds. Such a __format__ is simply called, traced - which is what format() does.
+    import types as _types
+    orig_format_fn = core._PATCH_REGISTRATIONS.get(format)
+
+    def _format_shim(obj, format_spec=""):
+        with NoTracing():
+            direct = (not isinstance(obj, CrossHairValue)) and isinstance(getattr(type(obj), "__format__", None), _types.FunctionType)
+        if direct:
+            return type(obj).__format__(obj, format_spec)
+        if orig_format_fn is not None:
+            return orig_format_fn(obj, format_spec)
+        with NoTracing():
+            return format(core.deep_realize(obj), core.deep_realize(format_spec))
+
+    core._PATCH_REGISTRATIONS[format] = _format_shim
+
     # --- negative slice bounds on symbolic strings --------------------------------------
     # CrossHair 0.0.110 mis-slices a concatenated symbolic string with a negative bound (`('"' + s + '"')[1:-1] == s` is
     # "refuted" with s = '\x00', which replays as true). Bounds are made non-negative with the string's length first, which
